@@ -147,6 +147,11 @@ def rule_validate_before_acting(ctx, r):
         if root is None:
             continue
         con = f"{root.module.relpath}::{root.qual}"
+        from ..inline import inlined
+        try:
+            root = inlined(ctx, root)   # private helpers such as _load_graph(ctx) are part of the command
+        except Exception:
+            pass
         body = root.node.body
         gi = None
         for i, st in enumerate(body):
@@ -227,6 +232,12 @@ def rule_depth(ctx, r):
         while top.outer is not None:
             top = top.outer
         con = f"{f.module.relpath}::{top.qual}::<recursion along dependency edges>" if top is not f else f"{f.module.relpath}::{f.qual}"
+        if along is not None:
+            # the finding is identified by the public traversal the recursion implements, wherever its body lives (closure, helper class, generator)
+            for anchor in (f"{CORE}:check_for_circular_dependencies", "gwf.scheduling:schedule", "gwf.plugins.touch:touch_workflow"):
+                a_fi = idx.functions.get(anchor)
+                if a_fi is not None and (f.key == anchor or f.key.startswith(anchor + ".") or res.owned_by(f, [anchor])):
+                    con = f"{a_fi.module.relpath}::{a_fi.qual}::<recursion along dependency edges>"
         if along is None:
             r.ok(con, "recursive, but not along dependency edges (bounded by container nesting)", f.where)
         elif f.key in reach_cmd or (f.outer is not None and f.outer.key in reach_cmd) or f.key.startswith(f"{CORE}:check_for_circular"):
